@@ -255,6 +255,27 @@ def neutral_changes(g, rng, ir):
                     for x in xs:
                         coll.add(x)
     N.append(("children-insertion-order", reinsert_children))
+
+    def edge_history():
+        # edges that were added and removed again leave no trace in what deep_eq compares (the graph library may keep their
+        # endpoints as isolated vertices, the edge set is the same); also lookups and index builds, which only read
+        cfgn = [b for b in ir.cfg_nodes]
+        T = g.Edge.Type
+        for _ in range(3):
+            if not cfgn:
+                break
+            e = g.Edge(rng.choice(cfgn), rng.choice(cfgn), g.Edge.Label(T.Sysret, True, True))
+            if e not in ir.cfg:
+                ir.cfg.add(e)
+                ir.cfg.discard(e)
+        for p in (g.ProxyBlock(), g.ProxyBlock()):
+            e = g.Edge(p, p, None)
+            ir.cfg.add(e)
+            ir.cfg.remove(e)
+        list(ir.byte_blocks_on(0))
+        for sec in ir.sections:
+            sec.address, sec.size
+    N.append(("edge-history:added-and-removed-edges", edge_history))
     return N
 
 
